@@ -9,13 +9,13 @@ CHECKS = {
     'C07': dict(
         level='exploration', engine='ENUM',
         technique='bounded-exhaustive enumeration of token trees x column offsets x 4 renderers; independent tokenizer + re-parse as oracle',
-        text='All trees with <=5 (thorough 6) nodes and all two-tree forests with <=4 (5) nodes over 21 lexical-class leaves (long/hyphenated tokens, literals and quoted symbols with blanks, parentheses, semicolons, newlines, doubled quotes, comments, empty lists) plus a column sweep that puts every leaf class at every start column 3..95 are parsed by ddSMT and rendered by all four real renderers; every rendering must have the source token sequence (independent tokenizer) and re-parse to the same structure. The space is enumerated completely (360 k sources, 1.4 M renderings quick).',
+        text='All trees with <=5 (thorough 6) nodes and all two-tree forests with <=4 (5) nodes over 23 lexical-class leaves (12 classes for 6-node trees) (long/hyphenated tokens, literals and quoted symbols with blanks, parentheses, semicolons, newlines, doubled quotes, comments, empty lists) plus a column sweep that puts every leaf class at every start column 3..95 are parsed by ddSMT and rendered by all four real renderers; every rendering must have the source token sequence (independent tokenizer) and re-parse to the same structure. The space is enumerated completely (360 k sources, 1.4 M renderings quick).',
         note='Trusted: reference tokenizer ddv/sexp.py; leaves are class representatives; sources go through ddSMT\'s own reader (C08 checks that reader).',
         design='3/C07'),
     'C11': dict(
         level='exploration', engine='ENUM',
         technique='bounded-exhaustive enumeration of (base forest, simplification) pairs against a recursive nested-list model, with object-identity and work-budget oracles',
-        text='Every forest of <=2 trees with <=6 (thorough 7) nodes over two leaf texts, every antichain of <=2 (3) id-keyed positions with 7 replacement kinds (deletion, fresh/existing leaf, compound terms, own child, BinaryReduction tuple), every structural key from {a,(a),(a b)} with replacements that contain the key once or twice, id+structural and double structural combinations, all ordered pairs of pending id-keyed simplifications, and declaration insertion over all command sequences of length <=3 are run through the real mutator_utils.apply_simp / nodes.substitute / smtlib.introduce_variables (1.5 M cases quick) and compared with an independent recursive model; untouched subtrees must be the identical objects, the base must be unchanged, and each call must stay within a deterministic count budget (catches re-entering a replacement).',
+        text='Every forest of <=2 trees with <=6 (thorough 7) nodes over two leaf texts, every antichain of <=2 (3) id-keyed positions with 7 replacement kinds (deletion, fresh/existing leaf, compound terms, own child, BinaryReduction tuple), every structural key from {a,(a),(a b)} with replacements that contain the key once or twice, id+structural and double structural combinations, all ordered pairs of pending id-keyed simplifications, and declaration insertion over all command sequences of length <=3 are run through the real mutator_utils.apply_simp / nodes.substitute / smtlib.introduce_variables (1.5 M cases quick) and compared with an independent recursive model; untouched subtrees must be the identical objects, the base must be unchanged, and each call must stay within a deterministic count budget (catches re-entering a replacement). Function inlining and let substitution are driven through the real InlineDefinedFuns / LetSubstitution mutators for every body with <=4 (5) nodes over {a,b,c} and 1-2 actual arguments that mention their own or the other formal parameter, against a simultaneous reference substitution (6.7 k proposals quick).',
         note='Trusted: the nested-list model in ddv/checks/c11.py. Id replacements that contain or equal a structural key are not generated (statement ambiguous); tuple replacements only alone (as BinaryReduction uses them).',
         design='3/C11'),
     'C12': dict(
@@ -42,7 +42,7 @@ CHECKS['C13'] = dict(
 CHECKS['C09'] = dict(
     level='exploration', engine='ENUM',
     technique='exhaustive decision-table enumeration of comparison options x run outcomes through the real checker with real subprocesses, against an independent statement of the rule',
-    text='(a) all 16 384 cases of checker.matches_golden (4 flags/match strings x 32 golden x 32 run outcomes); (b) the wiring in do_golden_runs/check() with real sh commands whose exit code and streams are scripted per candidate: the option combinations of --ignore-output/--ignore-out/--ignore-err/--match-out/--match-err x cross-check absent/present with its three options x --unchecked, each against 18 outcome classes per command (25 k check() calls quick, every combination in thorough), incl. which commands were actually run; (c) the argv seen by the command for 4 input extensions x 0-2 extra arguments x cross-check arguments through tmpfiles.init/copy_binaries/check_exprs.',
+    text='(a) all 16 384 cases of checker.matches_golden (4 flags/match strings x 32 golden x 32 run outcomes); (b) the wiring in do_golden_runs/check() with real sh commands whose exit code and streams are scripted per candidate: the option combinations of --ignore-output/--ignore-out/--ignore-err/--match-out/--match-err x cross-check absent/present with its three options x --unchecked, each against 18 outcome classes per command (25 k check() calls quick, every combination in thorough), incl. which commands were actually run; (c) the argv seen by the command for 4 input extensions x 0-2 extra arguments x cross-check arguments through tmpfiles.init/copy_binaries/check_exprs; (d) with no time limit configured and one of the two commands taking 2.5 s, the candidate that reproduces both golden runs must be accepted and a non-matching one rejected (the limits are derived from the right golden run).',
     note='Trusted: the acceptance rule as written in ddv/checks/c09.py from the property statement. Explicit --timeout 120 keeps machine load from turning runs into timeouts (timeouts are C10).',
     design='3/C09')
 
@@ -86,12 +86,12 @@ GRAPH_NOTE = ('Trusted: the argument of DESIGN 2.8 that every sequence of accept
 CHECKS['C03'] = dict(
     level='model_checking', engine='GRAPH',
     technique='explicit-state search of the rewrite graph whose transitions are the real mutators (hierarchical proposals and ddmin group steps); SCC / self-loop detection; deterministic per-call work budgets',
-    text='From each of ~185 quick seeds (generated depth-1 formulas per theory, occurs-check equalities, 33 hand-written command-level scripts, one script per operator of the typed generator in a VERIF_SEED-rotated slice; thorough: all) the rewrite graph is explored breadth-first in two regimes - all mutators to depth 2 (thorough 3), and without the pure deleters/creators up to a state cap - with transitions computed by the real mutators, apply_simp, reduplicate and collect_information, including the ddmin group steps built by the real TaskGenerator, for both --replace-by-variable-mode settings (330 k states, 8.4 M transitions quick). Oracles: no proposal leaves the input unchanged; the explored graph has no strongly connected component with more than one state once the edges explained by the listed open findings (KF-C03-1/2/5) are removed - those are printed as KNOWN-FINDING; every filter/mutations/apply call stays within a count budget of 60(n+10)^2 Node hash calls and constructions (a CPU-time backstop turns a hang into a verdict).',
+    text='From each of ~185 quick seeds (generated depth-1 formulas per theory, occurs-check equalities, 33 hand-written command-level scripts, one script per operator of the typed generator in a VERIF_SEED-rotated slice; thorough: all) the rewrite graph is explored breadth-first in two regimes - all mutators to depth 2 (thorough 3), and without the pure deleters/creators up to a state cap - with transitions computed by the real mutators, apply_simp, reduplicate and collect_information, including the ddmin group steps built by the real TaskGenerator, for both --replace-by-variable-mode settings (330 k states, 8.4 M transitions quick). Oracles: no proposal leaves the input unchanged; the explored graph has no strongly connected component with more than one state once the edges explained by the listed open findings (KF-C03-1/2/5/7) are removed - those are printed as KNOWN-FINDING; at the first 150 states of every closure unit the proposals of the long-lived mutator instances must equal those of fresh instances (the transition relation is a function of the current input, not of the history); every filter/mutations/apply call stays within a count budget of 60(n+10)^2 Node hash calls and constructions (a CPU-time backstop turns a hang into a verdict).',
     note=GRAPH_NOTE, design='3/C03')
 CHECKS['C15'] = dict(
     level='model_checking', engine='GRAPH',
     technique='explicit-state search of the rewrite graph; per-proposal oracle: apply, render with all four renderers, re-read with ddSMT and the reference reader, fresh-declaration rules',
-    text='At every state within depth 2 (thorough 3) of every seed, every proposal of every enabled mutator at every node (1.2 M proposals, 3 M renderings quick; ddmin group steps included) must refer only to nodes / keys of that state, be applicable without error, produce leaves that are single tokens, and its result rendered by the checking, default, pretty and wrap renderers must be read back by ddSMT and by the independent reference reader as exactly the tree kept in memory; every declaration in fresh_vars must declare a symbol that no well-formed declaration or binder of the state introduces and must stand before the first command using it.',
+    text='At every state within depth 2 (thorough 3) of every seed, every proposal of every enabled mutator at every node (1.2 M proposals, 3 M renderings quick; ddmin group steps included) must refer only to nodes / keys of that state, be applicable without error, produce leaves that are single tokens (a new leaf that starts with a digit must be a complete numeral or decimal; the trailing-dot decimals of ArithmeticSimplifyConstant are the open finding KF-C15-4), and its result rendered by the checking, default, pretty and wrap renderers must be read back by ddSMT and by the independent reference reader as exactly the tree kept in memory; every declaration in fresh_vars must declare a symbol that no well-formed declaration or binder of the state introduces and must stand before the first command using it.',
     note=GRAPH_NOTE, design='3/C15')
 
 CHECKS['C04'] = dict(
@@ -117,7 +117,7 @@ CHECKS['C17'] = dict(
 CHECKS['C06'] = dict(
     level='fault_enumeration', engine='FAULT',
     technique='enumeration of every low-level file-operation point of every rewrite as observation point and as interrupt point, on the real write path; interrupts at command executions over schedule deviations; real SIGINT runs',
-    text='21 scenarios (3 strategies x 3 output formats, 3-10 rewrites each) run the real main() with nodeio\'s open/os rebound to a proxy that numbers every operation on the output file (open, each write, close, replace). At each of the 5.2 k operation points the content on disk is read through a separate descriptor (what a concurrent reader or a kill -9 finds) and must tokenise to a complete accepted input from the first completed rewrite on; and one execution per point raises KeyboardInterrupt exactly there and leaves it to ddSMT\'s handlers: afterwards the file must hold the last accepted input (or the one being installed), main() returned 1, the input file is unchanged, the temporary directory and any sibling temp file are gone. Interrupts are also injected at every command execution on the default schedule and, with -j 2 and one schedule deviation, at every execution that is still running after an acceptance (number of acceptances by the main loop must equal the number of completed rewrites). REAL: 20 runs of bin/ddsmt with SIGINT to the process group at the 2nd..16th invocation.',
+    text='21 scenarios (3 strategies x 3 output formats, 3-10 rewrites each) run the real main() with nodeio\'s open/os rebound to a proxy that numbers every operation on the output file (open, each write, close, replace). At each of the 5.2 k operation points the content on disk is read through a separate descriptor (what a concurrent reader or a kill -9 finds) and must tokenise to a complete accepted input from the first completed rewrite on; and one execution per point raises KeyboardInterrupt exactly there and leaves it to ddSMT\'s handlers: afterwards the file must hold the last accepted input (or the one being installed), main() returned 1, the input file is unchanged, the temporary directory and any sibling temp file are gone. Interrupts are also injected at every command execution on the default schedule and, with -j 2 and one schedule deviation, at every execution that is still running after an acceptance (number of acceptances by the main loop must equal the number of completed rewrites). The temporary directory is modelled as a different file system than the output directory (a rename across the two fails with EXDEV) and file operations inside shutil are observed as well. REAL: 20 runs of bin/ddsmt with SIGINT to the process group at the 2nd..16th invocation.',
     note='Trusted: operation-point granularity is the python-level file operation, not machine instructions inside one write(2); the file proxy forwards to the real file object. "Last accepted" is read leniently for an interrupt inside the rewrite that installs it. ' + SCHED_NOTE,
     design='3/C06')
 
